@@ -493,7 +493,7 @@ func TestCheck(t *testing.T) {
 	run.Assume("a subscription instance is a logger Subscribe call inside the handle window of a subscribe message; it ends at the first of: logger Unsubscribe(id), read-enter after its unsubscribe message, ServeJSONSocket returned")
 	run.Assume("Unsubscribe logger calls for ids of mutations (never subscribed) are tolerated")
 	run.Assume("rejecting a subscribe early (a mutation in flight occupies a slot or an id) is not a violation")
-	n := run.N(80, 3000)
+	n := run.N(80, 10000)
 	stormRounds = run.N(1600, 6000)
 	agg := vlib.NewHitAgg()
 	defer agg.Report(run)
